@@ -145,7 +145,7 @@ class AclMachine(Machine):
             standard=platform == "ios" and w.random() < 0.06,
             memo_faults=w.random() < 0.5,
             memo_rate=w.choice([0.05, 0.1, 0.2]),
-            memo_size="shipped",
+            memo_size=w.choice(["shipped", "shipped", "shipped", None, 0, 1, 2]),
             gc_events=w.random() < 0.3,
             aborts=w.random() < 0.25,
             members_known=w.random() < 0.8,
@@ -176,6 +176,10 @@ class AclMachine(Machine):
         self.ids.install()
         self.memo.install()
         self.log.install()
+        if cfg.get("memo_size", "shipped") != "shipped" and self.memo.present:
+            self.memo.resize(cfg["memo_size"])
+            self.memo.fired["resize"] = 0
+            self.faults["memo_size_knob"] += 1
         self.slots = []
         self.press_base = 0
 
@@ -410,6 +414,12 @@ class AclMachine(Machine):
                 gc.collect()
                 self.faults["gc_collect"] += 1
                 return "ok"
+            if k == "drop":
+                if len(self.slots) > 1:
+                    self.slots.pop(op.get("t", 0) % len(self.slots))
+                    self.faults["drop"] += 1
+                    return "ok"
+                return "noop"
             if k == "conv_obj":
                 return self._op_conv_obj(op)
             if k == "ace_ungroup_ports":
@@ -1346,6 +1356,8 @@ class AclMachine(Machine):
             r = s.random()
             if cfg["gc_events"] and r < 0.03:
                 return dict(op="gc_collect")
+            if cfg["gc_events"] and r < 0.045 and len(self.slots) > 1:
+                return dict(op="drop", t=s.randrange(2))
             if cfg["memo_faults"] and r < 0.06:
                 return dict(op="memo_clear")
             if cfg["memo_faults"] and r < 0.10:
